@@ -359,6 +359,10 @@ def run(ctx) -> None:
         extra = [u.id] if isinstance(u, ast.Name) else []
         for d in defs:
             extra += expr_atoms(d)
+        if not any("tag_scope" in a and a.endswith("TagScope.BRANCH") for a in extra):
+            extra.append("cfg.tag_scope == config.TagScope.BRANCH")
+        if "set_version is None" not in extra:
+            extra.append("set_version is None")
         ug2 = cfgs.get(upd.fq)
         upc2 = PathCond(ug2, extra_atoms=list(dict.fromkeys(extra)), max_atoms=22)
         at = ug2.node_containing(c)
